@@ -91,7 +91,7 @@ def random_snapshot(r, k):
     snap["rating"] = i(-10, 200)
     snap["key"] = [] if r.random() < 0.2 else [r.randrange(0, 24)]
     snap["duration"] = [] if r.random() < 0.2 else [r.choice([0, 1, 999, 1000, 1001, r.randrange(0, 2 * 10 ** 9)])]
-    snap["file_bytes"] = [] if r.random() < 0.2 else [str(r.choice([0, 1, r.randrange(0, 2 ** 40)]))]
+    snap["file_bytes"] = [] if r.random() < 0.2 else [str(r.choice([0, 1, r.randrange(0, 2 ** 40), 2 ** 63 - 1, 2 ** 63, 2 ** 64 - 1, r.randrange(2 ** 63, 2 ** 64)]))]
     snap["sample_count"] = [] if r.random() < 0.2 else [str(r.choice([0, 1, r.randrange(0, 2 ** 40)]))]
     snap["last_played_at"] = [] if r.random() < 0.2 else [{"s": str(r.choice([0, 1, 1700000000, r.randrange(0, 2 ** 32)])), "f": r.choice([0, 0, 1, 999999999, 500000000])}]
     n = r.choice([0, 0, 2, 3, 17, 1, 400 if r.random() < 0.05 else 4])
@@ -140,6 +140,10 @@ def check_C01(tier, seed):
         # (file_bytes has no setter, hence no setter sequence in the model's output: its value classes are added here, so that
         #  "an update that changes this field only" exists for every snapshot field)
         fb_classes = [{"f": "file_bytes", "v": v} for v in ([], ["0"], ["1"], ["7654321"], ["1099511627776"])]
+        # the edges of the two unsigned 64-bit fields of a snapshot: the columns are signed 64-bit, the conversion wraps both ways
+        # and is exact (seeded change C01f: a range-checked conversion helper stores NULL above 2^63 - 1)
+        fb_classes += [{"f": f, "v": [v]} for f in ("file_bytes", "sample_count")
+                       for v in ("9223372036854775807", "9223372036854775808", "18446744073709551615")]
         for sq in seqs + [[x] for x in fb_classes]:
             f, v = sq[0]["f"], sq[0]["v"]
             if f in ("hot_cue_at", "loop_at"):
